@@ -98,4 +98,82 @@ theorem corrLoop_terminates (q rhat yn1 yn0 un : Nat) (hy : 32768 ≤ yn1) (hy' 
       exact corrLoop_last 1 _ _ _ _ _ (by omega) (by omega)
   · rw [if_neg hc]; simp
 
+/-- the Knuth-D digit estimate of `Div32` (one correction loop), on a normalised two-digit divisor y = y1·2^16 + y0:
+    starting from any (q, r) with q·y1 + r = u1, q ≤ 2^16+1, r < 2^16 and q not below the true digit, the loop returns
+    the true quotient digit of (u1·2^16 + u0) / y. -/
+theorem corrLoop_digit (f : Nat) : ∀ (q r y1 y0 u1 u0 : Nat),
+    32768 ≤ y1 → y1 < 65536 → y0 < 65536 → u0 < 65536 → r < 65536 → q ≤ 65537 →
+    u1 < y1 * 65536 + y0 →
+    q * y1 + r = u1 →
+    u1 * 65536 + u0 < (q + 1) * (y1 * 65536 + y0) →
+    65536 ≤ r + f * y1 →
+    ∃ q', corrLoop f q r y1 y0 u0 = some q' ∧
+      q' * (y1 * 65536 + y0) ≤ u1 * 65536 + u0 ∧ u1 * 65536 + u0 < (q' + 1) * (y1 * 65536 + y0) := by
+  induction f with
+  | zero => intro q r y1 y0 u1 u0 _ _ _ _ hr _ _ _ _ hf; omega
+  | succ f ih =>
+    intro q r y1 y0 u1 u0 hy1 hy1' hy0 hu0 hr hq hu1 hinv hup hf
+    -- products as atoms
+    have eP : q * (y1 * 65536 + y0) = q * y1 * 65536 + q * y0 := by rw [Nat.mul_add, Nat.mul_assoc]
+    have eP1 : (q + 1) * (y1 * 65536 + y0) = q * y1 * 65536 + q * y0 + y1 * 65536 + y0 := by
+      rw [Nat.add_mul, eP]; omega
+    have hB : q * y0 ≤ 65537 * 65535 := Nat.mul_le_mul hq (by omega)
+    have e1 : u32 (q * y0) = q * y0 := Nat.mod_eq_of_lt (by omega)
+    have e2 : u32 (u32 (65536 * r) + u0) = 65536 * r + u0 := by
+      unfold u32; omega
+    unfold corrLoop
+    rw [e1, e2]
+    by_cases hc : q ≥ 65536 ∨ q * y0 > 65536 * r + u0
+    · rw [if_pos hc]
+      -- q ≥ 1 and u < q·y
+      have hq1 : 1 ≤ q := by
+        rcases hc with hc | hc
+        · omega
+        · rcases Nat.eq_zero_or_pos q with h0 | h0
+          · subst h0; simp at hc
+          · exact h0
+      have hlt : u1 * 65536 + u0 < q * (y1 * 65536 + y0) := by
+        rw [eP]
+        rcases hc with hc | hc
+        · have h1 : 65536 * y1 ≤ q * y1 := Nat.mul_le_mul_right y1 hc
+          have h2 : 65536 * y0 ≤ q * y0 := Nat.mul_le_mul_right y0 hc
+          generalize q * y1 = A at *
+          generalize q * y0 = B at *
+          omega
+        · generalize q * y1 = A at *
+          generalize q * y0 = B at *
+          omega
+      have es : sub32 q 1 = q - 1 := by unfold sub32; omega
+      have er : u32 (r + y1) = r + y1 := Nat.mod_eq_of_lt (by omega)
+      simp only [es, er]
+      have eA : (q - 1) * y1 = q * y1 - y1 := Nat.sub_one_mul q y1
+      have eB : (q - 1) * y0 = q * y0 - y0 := Nat.sub_one_mul q y0
+      have hAy : y1 ≤ q * y1 := Nat.le_mul_of_pos_left y1 hq1
+      have hBy : y0 ≤ q * y0 := Nat.le_mul_of_pos_left y0 hq1
+      have hup' : u1 * 65536 + u0 < (q - 1 + 1) * (y1 * 65536 + y0) := by
+        rw [Nat.sub_add_cancel hq1]; exact hlt
+      have hinv' : (q - 1) * y1 + (r + y1) = u1 := by rw [eA]; omega
+      by_cases hb : r + y1 ≥ 65536
+      · rw [if_pos hb]
+        refine ⟨q - 1, rfl, ?_, hup'⟩
+        have eP' : (q - 1) * (y1 * 65536 + y0) = (q - 1) * y1 * 65536 + (q - 1) * y0 := by
+          rw [Nat.mul_add, Nat.mul_assoc]
+        rw [eP', eA, eB]
+        have hB' : q * y0 - y0 ≤ 65536 * 65536 := by
+          have : (q - 1) * y0 ≤ 65536 * 65536 := Nat.mul_le_mul (by omega) (by omega)
+          rw [eB] at this; exact this
+        generalize q * y1 = A at *
+        generalize q * y0 = B at *
+        omega
+      · rw [if_neg hb]
+        exact ih (q - 1) (r + y1) y1 y0 u1 u0 hy1 hy1' hy0 hu0 (by omega) (by omega) hu1 hinv' hup' (by
+          rw [Nat.succ_mul] at hf; omega)
+    · rw [if_neg hc]
+      refine ⟨q, rfl, ?_, hup⟩
+      rw [eP]
+      have hc' : q * y0 ≤ 65536 * r + u0 := by omega
+      generalize q * y1 = A at *
+      generalize q * y0 = B at *
+      omega
+
 end GV.Proofs.Bits32
